@@ -314,12 +314,16 @@ pub fn run_pure(ctx: &RunCtx) -> Vec<PartOutcome> {
         },
         check_line,
     ));
+    if ctx.tier == Tier::Thorough {
+        parts.push(crate::fuzzdec::libfuzzer_part(ctx, "parse", 3_000_000, 600));
+    }
     parts
 }
 
 pub fn replay(part: &str, input: &Value) -> Option<Result<Result<(), Viol>, String>> {
     match part {
         "tok_grammar" | "tok_bytes" | "tok_exhaustive" => Some(replay_input::<LineCase>(input, check_line)),
+        "libfuzzer_parse" => Some(crate::fuzzdec::replay_bytes_case(input)),
         _ => None,
     }
 }
